@@ -6,7 +6,7 @@
    (premises of C16_optimal_solution_is_closest_flow). *)
 From Coq Require Import List NArith ZArith QArith Bool Arith Lia.
 Import ListNotations.
-From FP Require Import Lin Blocks BlocksProofs PathEnc MiscEnc MiscEncProofs.
+From FP Require Import Lin Blocks BlocksProofs PathEnc MiscEnc MiscEncProofs MefBound.
 Local Open Scope Q_scope.
 
 (* rows + columns <=> 0 <= x, err <= ub (integral for int weights); conservation at every node with in- and
@@ -38,11 +38,10 @@ Theorem C16_every_flow_is_a_solution : forall (I : mef_inst),
 Proof. exact mef_tight_assignment. Qed.
 Print Assumptions C16_every_flow_is_a_solution.
 
-(* PARTIAL (relative to the bound ub = w_max * |E| of the variables): an optimal solution of the rows is a
-   non-negative flow with conservation where required whose cost is no larger than that of any other such
-   flow within the bounds, and the reported objective equals the recomputed cost.
-   Missing for the full statement: "the bound loses no optimum" (DESIGN mef_bound_no_loss), sampled by E2. *)
-Theorem C16_optimal_solution_is_closest_flow_partial : forall (I : mef_inst),
+(* relative to the bound ub = w_max * |E| of the variables: an optimal solution of the rows is a non-negative flow with
+   conservation where required whose cost is no larger than that of any other such flow WITHIN THE BOUNDS, and the reported
+   objective equals the recomputed cost *)
+Theorem C16_optimal_solution_is_closest_flow_within_bounds : forall (I : mef_inst),
   (forall e, In e (mef_edges I) -> 0 <= fval I e <= mef_ub I) ->
   (mef_int I = true -> forall e, In e (mef_edges I) -> is_int (fval I e)) ->
   forall a : var -> Q,
@@ -53,13 +52,35 @@ Theorem C16_optimal_solution_is_closest_flow_partial : forall (I : mef_inst),
   (0 < mef_lambda I \/ mef_lambda I == 0 -> (forall e, In e (mef_edges I) -> 0 < scale_of I e \/ ignored I e = true) ->
    objective a (encode_mef I) == flow_cost I (xof a)).
 Proof. exact mef_optimal_is_closest. Qed.
-Print Assumptions C16_optimal_solution_is_closest_flow_partial.
+Print Assumptions C16_optimal_solution_is_closest_flow_within_bounds.
+
+(* THE BOUND LOSES NO OPTIMUM (mef_bound_no_loss): every non-negative flow with conservation where required -- whatever its
+   values -- is matched or beaten by a flow within the variable bounds.  (Proof: contract the nodes without conservation into
+   one node, so the flow is a circulation; an edge above the sum F of the charged weights lies on a simple cycle of edges that
+   are above their weight (cut argument); lowering the cycle by its least slack keeps conservation, lowers no edge below its
+   weight, and strictly shrinks the set of edges above their weight; iterate.  F <= w_max * |E|.) *)
+Theorem C16_bound_loses_no_optimum : forall (I : mef_inst),
+  NoDup (mef_edges I) ->
+  (forall e, In e (mef_edges I) -> 0 <= fval I e) ->
+  (mef_int I = true -> forall e, In e (mef_edges I) -> is_int (fval I e)) ->
+  (forall e, In e (mef_edges I) -> 0 <= scale_of I e) ->
+  forall y, is_flow_nb I y -> exists y', is_flow_ub I y' /\ flow_cost I y' <= flow_cost I y.
+Proof. exact mef_bound_no_loss. Qed.
+Print Assumptions C16_bound_loses_no_optimum.
+
+(* FULL STATEMENT (relative to the solver specification): an optimal solution of the rows is a closest flow among ALL
+   non-negative flows with conservation where required (integral flows when weight_type = int).  Side conditions: the edge
+   list has no duplicates (networkx DiGraph), weights non-negative (integral for int), scalings non-negative. *)
 Definition C16_full_statement : Prop := forall (I : mef_inst) (a : var -> Q),
-  (forall e, In e (mef_edges I) -> 0 <= fval I e) -> (forall e, In e (mef_edges I) -> 0 <= scale_of I e) ->
+  NoDup (mef_edges I) ->
+  (forall e, In e (mef_edges I) -> 0 <= fval I e) ->
+  (mef_int I = true -> forall e, In e (mef_edges I) -> is_int (fval I e)) ->
+  (forall e, In e (mef_edges I) -> 0 <= scale_of I e) ->
   sat a (encode_mef I) -> (forall b, sat b (encode_mef I) -> obj_le (encode_mef I) a b) ->
-  forall y : edge -> Q, (forall e, In e (mef_edges I) -> 0 <= y e) ->
-  (forall v, In v (mef_nodes I) -> conserved I v = true -> sumq y (mef_in_edges (mef_edges I) v) == sumq y (out_edges (mef_edges I) v)) ->
-  flow_cost I (xof a) <= flow_cost I y.
+  is_flow_ub I (xof a) /\ forall y, is_flow_nb I y -> flow_cost I (xof a) <= flow_cost I y.
+Theorem C16_optimal_solution_is_closest_flow : C16_full_statement.
+Proof. exact mef_optimal_is_closest_full. Qed.
+Print Assumptions C16_optimal_solution_is_closest_flow.
 
 (* the corrected graph has the node list and the edge list it was built from; an edge carries a value iff it had one *)
 Theorem C16_same_graph : forall (I : mef_inst) (nodes : list node) (edges : list edge) (x : edge -> Q),
@@ -88,6 +109,10 @@ Theorem C16_equivalent_lps_have_the_same_optima : forall (m1 m2 : milp), milp_eq
   forall a, (sat a m1 /\ forall b, sat b m1 -> obj_le m1 a b) <-> (sat a m2 /\ forall b, sat b m2 -> obj_le m2 a b).
 Proof. exact milp_equiv_optimal. Qed.
 Print Assumptions C16_equivalent_lps_have_the_same_optima.
+
+(* ---- non-vacuity of the no-loss theorem: a flow far above the bound (7 on both edges, ub = 2) is a flow in its sense *)
+Example C16_nonvacuous_unbounded_flow : is_flow_nb ex_nb (fun _ => 7) /\ mef_ub ex_nb == 2.
+Proof. exact ex_nb_flow. Qed.
 
 (* ---- non-vacuity: a -> b (3), b -> c (5): the flow 3,3 (err 0,2) satisfies the model; b is conserved *)
 Definition ex_mef : mef_inst :=
